@@ -160,7 +160,7 @@ class Report:
             "wall_s": round(time.time() - self.t0, 2),
             "violations": len(self.violations),
         }
-        EVIDENCE.mkdir(exist_ok=True)
+        EVIDENCE.mkdir(parents=True, exist_ok=True)
         (EVIDENCE / f"{self.prop}.json").write_text(json.dumps(ev, indent=1, default=str, ensure_ascii=False))
         for h in self.known_hits:
             print(f"KNOWN-FINDING: property={self.prop} {h['key']}: {h['what']}")
